@@ -23,7 +23,10 @@ PROP = dict(
         dict(driver="stop", corpus_from="C03", quick=0, thorough=60, shard=12, noshrink=True, only_monitors=[0, 3],
              monitors=["stop_returns_without_crash", "(C03)", "(C03)", "all_stage_workers_returned"]),
     ],
-    partial="The population of subscribers is fixed in the model (the stages subscribe at start-up, before any pause; a subscriber that joins "
+    partial="The theorems C14_calls_complete .. C14_pause_sticks are about workers that do not feed each other (independent subscribers); "
+            "workers joined by stage channels are covered by the witness C14_sequential_resume_refuted (the model has the link and the hand-over) and by the "
+            "driver's linked-worker cases, whose monitors extend the quiescence predicates to chains (a worker stuck in its hand-over upstream of an "
+            "acknowledging worker counts as paused), not by a general theorem. The population of subscribers is fixed in the model (the stages subscribe at start-up, before any pause; a subscriber that joins "
             "while paused gets no token and is waited for by the next Resume - not modelled). 'Blocked forever' is stated without fairness: "
             "from every reachable state system steps alone stop within mu(s) steps in a state with no pending call; a call can still be "
             "delayed for as long as other controllers keep invoking new calls (mutex fairness is the Go runtime's). A work item is two labels (taken / passed on) and "
@@ -35,8 +38,8 @@ PROP = dict(
     level_text="Theorems over ALL label lists (= all schedules and all orders of Pause/Resume/cancel/work invocations) for any number of workers and "
                "controllers, by an inductive invariant (mutex holder <-> the one call past its first step; per phase which workers still owe an "
                "acknowledgement), deadlock freedom at every reachable state, and a strictly decreasing measure for system steps (valid for every "
-               "variant of the code). Witness lemmas refute the code as found (3 defects), each single-repair omission and two tempting repair "
-               "candidates. Model tied to the real pause package driven by REAL stage worker goroutines: after every invocation (sequential "
+               "variant of the code). Witness lemmas refute the code as found (3 defects), each single-repair omission, two tempting repair "
+               "candidates, Pause without the mutex, and sequential collection of the acknowledgements in Resume (deadlock with workers that feed each other). Model tied to the real pause package driven by REAL stage worker goroutines (independent, made busy with items, or joined into chains through bounded channels like the stages): after every invocation (sequential "
                "driver: exact prediction, except where a Pause and a Resume both wait for the mutex; concurrent driver: monitors) the process is observed at true quiescence, decided from a "
                "stop-the-world goroutine dump, so a call that never returns is detected without timeouts.",
     technique="Coq proof (LTS + invariant + measure) with differential/monitor correspondence on the real goroutines",
